@@ -189,8 +189,8 @@ pub(crate) fn dedupe_props(props: Vec<PropOrSpread>) -> Vec<PropOrSpread> {
                                 }));
                             }
                         }
-                        Some(..) => {}
-                        None => {
+                        // other repeated names are kept: all are evaluated, the last one wins
+                        _ => {
                             defined.push(PropOrSpread::Prop(Box::new(Prop::KeyValue(
                                 KeyValueProp {
                                     key: PropName::Str(Str {
